@@ -80,6 +80,14 @@ CHECKS = {
         "span/shape and sub-pixel displacement (none when snapping is off) - on ~1.4e5 (quick) cases, and emits them. The real constructors are run through five routes (BoundingBox, tuple+crs, polygon, "
         "polygon in an exact-translation CRS, zoom_to(resolution=)) including whole-pixel shifts of 2^20 pixels, and TLC judges the logged (shape, affine) with the same contract and compares with the model.",
    ref="5/C08", note=TB + "spans of millions of pixels are represented by the 2^20-pixel shift family only (TLC integers are 32 bit)"),
+ "C02": dict(
+   technique="TLA+ state machine of GeoBox view-changing operations in exact rational arithmetic (GeoBoxViews) model-checked by TLC; every transition replayed on a real GeoBox / GCPGeoBox and all views validated by TLC",
+   text="The model gives every operation its documented meaning (A' = A o T on the pixel side or M o A on the world side, a shape rule, same CRS) in exact rationals; TLC explores all operation sequences "
+        "to depth 2 (quick) / 3 (thorough) from 7 base grids x 4 shapes x CRS none/A, checks invertibility, positive shapes, coverers-cover and centre-fixed-under-rotation as action properties, and emits "
+        "every transition. Each is executed on a real GeoBox built from the model state; TLC checks on the logged result the operation contract (shape, all six affine terms on the 1/1200 lattice, CRS) "
+        "and the coherence of all views with that affine: pix2wld at the corners, wld2pix inverse, footprint = image of the pixel rectangle, bounding box, axis labels = pixel centres, resolution. The "
+        "same transitions (supported operations) are run on GCPGeoBoxes whose control points are generated by the exact affine.",
+   ref="5/C02", note=TB + "GCP boxes with control points that are not affinely related are not covered (fit accuracy); resolution of rotated boxes is covered in C20 (decompose_rws)"),
 }
 
 NOT_YET = "check not built yet (work in progress); see DESIGN.md"
